@@ -11,6 +11,7 @@ N2  helpers that are not in sa/pinned_functions.json (introduced after the rules
 N3  equivalent spellings:  np.flatnonzero(m) -> np.where(m)[0];  x[::-1] -> np.flip(x, axis=0);
     (f(x) for x in (a, b, c)) -> (f(a), f(b), f(c))   (comprehension / generator over a literal tuple or list)
 N4  unpacking of a name (not of a call):  a, b = p  ->  a = p[0]; b = p[1]   (nested patterns too)
+N6  module-level constant expressions (NAME = np.pi / (2 * 9.81), bound once) are substituted where functions load NAME
 N5  row views of a freshly allocated local array:  v = X[a:]; v[:, j] = e  ->  X[a:, j] = e   (bare loads of v -> X[a:])
 
 Inlined statements keep the helper's line numbers, so a report made on inlined code points at the helper's source line.
@@ -120,6 +121,7 @@ class _Ctx(object):
         self.funcs = funcs          # new module-level helpers: name -> FunctionDef
         self.classes = classes      # class name -> {method name -> FunctionDef} (new methods only)
         self.counter = 0
+        self.caller_names = set()
 
     def fresh(self, stem):
         self.counter += 1
@@ -274,11 +276,33 @@ def _inline(call, how, targets, ctx, cls, selfname, like, depth):
     if how != "return" and _returns_in_loops(body):
         return None
     suffix = ctx.fresh("__" + fn.name.strip("_"))
-    table = {n: n + suffix for n in _locals_of(fn)}
+    # helper locals keep their names unless the caller already uses the name for something else (moved code usually keeps its names,
+    # and rules that know a quantity by the name the pinned tree gives it keep working); a parameter bound to the caller's variable
+    # of the same name is that variable
+    same = {p for p, v in b.items() if isinstance(v, ast.Name) and v.id == p}
+    table = {n: (n + suffix if (n in ctx.caller_names and n not in same) else n) for n in _locals_of(fn)}
+    # `a, b = helper(...)` where the helper ends in `return a, b` (names): the helper's a, b ARE the caller's a, b
+    if how == "assign" and targets is not None and len(targets) == 1:
+        tnames = [t.id for t in targets[0].elts] if isinstance(targets[0], (ast.Tuple, ast.List)) and \
+            all(isinstance(t, ast.Name) for t in targets[0].elts) else ([targets[0].id] if isinstance(targets[0], ast.Name) else None)
+        rets = [r for r in ast.walk(fn) if isinstance(r, ast.Return)]
+        rnames = set()
+        for r in rets:
+            v = r.value
+            rnames.add(tuple(e.id for e in v.elts) if isinstance(v, ast.Tuple) and all(isinstance(e, ast.Name) for e in v.elts)
+                       else ((v.id,) if isinstance(v, ast.Name) else None))
+        if tnames and len(rnames) == 1 and None not in rnames:
+            (rn,) = rnames
+            if len(rn) == len(tnames) and len(set(rn)) == len(rn):
+                loc_ = _locals_of(fn)
+                for hn, cn in zip(rn, tnames):
+                    if cn == hn or cn not in loc_:
+                        table[hn] = cn
     if is_method:
         table[fn.args.args[0].arg] = selfname
+    ctx.caller_names |= set(table.values())
     body = [_Rename(table).visit(s) for s in body]
-    binds = [_assign([_name(table[p], ast.Store(), like)], copy.deepcopy(v), like) for p, v in b.items()]
+    binds = [_assign([_name(table[p], ast.Store(), like)], copy.deepcopy(v), like) for p, v in b.items() if p not in same]
     if how == "return":
         stmts = binds + body
         if not (body and isinstance(body[-1], ast.Return)):
@@ -316,10 +340,17 @@ def _stmt(st, ctx, cls, selfname, depth):
     if isinstance(st, ast.Assign) and len(st.targets) == 1 and isinstance(st.targets[0], (ast.Tuple, ast.List)) and \
             isinstance(st.value, (ast.Tuple, ast.List)) and len(st.targets[0].elts) == len(st.value.elts) and \
             not any(isinstance(e, ast.Starred) for e in list(st.targets[0].elts) + list(st.value.elts)):
-        tn = {x.id for t in st.targets[0].elts for x in ast.walk(t) if isinstance(x, ast.Name)}
-        vn = {x.id for v in st.value.elts for x in ast.walk(v) if isinstance(x, ast.Name)}
-        if not (tn & vn) and all(isinstance(t, ast.Name) for t in st.targets[0].elts):
-            return _block([_assign([t], v, st) for t, v in zip(st.targets[0].elts, st.value.elts)], ctx, cls, selfname, depth)
+        pairs = [(t, v) for t, v in zip(st.targets[0].elts, st.value.elts)
+                 if not (isinstance(t, ast.Name) and isinstance(v, ast.Name) and t.id == v.id)]        # x = x says nothing
+        tn = {x.id for t, _ in pairs for x in ast.walk(t) if isinstance(x, ast.Name)}
+        vn = {x.id for _, v in pairs for x in ast.walk(v) if isinstance(x, ast.Name)}
+        if not (tn & vn) and all(isinstance(t, ast.Name) for t, _ in pairs):
+            if not pairs:
+                return [ast.copy_location(ast.Pass(), st)]
+            return _block([_assign([t], v, st) for t, v in pairs], ctx, cls, selfname, depth)
+    if isinstance(st, ast.Assign) and len(st.targets) == 1 and isinstance(st.targets[0], ast.Name) and isinstance(st.value, ast.Name) and \
+            st.targets[0].id == st.value.id:
+        return [ast.copy_location(ast.Pass(), st)]
     # N1 conditional expressions
     ie = _contains(header, ast.IfExp)
     if ie is not None:
@@ -438,6 +469,46 @@ def _views(fn):
         fn.body[i] = ast.fix_missing_locations(V().visit(st))
 
 
+# ------------------------------------------------------------------------------------------------- N6 module-level constant expressions
+def _module_constants(tree):
+    """NAME = <arithmetic of literals and pi> at module level, bound once and never re-bound in a function: loads of NAME inside
+    functions are replaced by the expression (plain literal constants are left to the resolver, which already knows them)."""
+    consts, counts = {}, {}
+    for st in tree.body:
+        for n in ast.walk(st) if not isinstance(st, (ast.FunctionDef, ast.ClassDef)) else []:
+            if isinstance(n, ast.Name) and isinstance(n.ctx, ast.Store):
+                counts[n.id] = counts.get(n.id, 0) + 1
+    for st in tree.body:
+        if isinstance(st, ast.Assign) and len(st.targets) == 1 and isinstance(st.targets[0], ast.Name) and counts.get(st.targets[0].id) == 1 \
+                and not isinstance(st.value, ast.Constant):
+            ok = True
+            for n in ast.walk(st.value):
+                if isinstance(n, (ast.BinOp, ast.UnaryOp, ast.Constant, ast.operator, ast.unaryop, ast.Load)):
+                    continue
+                if isinstance(n, ast.Attribute) and ast.unparse(n) in ("np.pi", "numpy.pi", "math.pi", "np.e", "math.e"):
+                    continue
+                if isinstance(n, ast.Name) and n.id in ("np", "numpy", "math"):
+                    continue
+                ok = False
+                break
+            if ok and any(isinstance(n, (ast.BinOp, ast.Attribute)) for n in ast.walk(st.value)):
+                consts[st.targets[0].id] = st.value
+    if not consts:
+        return
+
+    class R(ast.NodeTransformer):
+        def visit_Name(self, n):
+            if isinstance(n.ctx, ast.Load) and n.id in consts:
+                return ast.copy_location(copy.deepcopy(consts[n.id]), n)
+            return n
+    for st in ast.walk(tree):
+        if isinstance(st, ast.FunctionDef):
+            stored = {x.id for x in ast.walk(st) if isinstance(x, ast.Name) and isinstance(x.ctx, ast.Store)} | {a.arg for a in st.args.args}
+            if stored & set(consts):
+                continue
+            st.body = [ast.fix_missing_locations(R().visit(x)) for x in st.body]
+
+
 def normalise_module(tree, modname):
     if os.environ.get("VERIF_NO_NORMALISE") == "1":
         return tree
@@ -463,15 +534,18 @@ def normalise_module(tree, modname):
             for k, v in classes.get(b, {}).items():
                 classes.setdefault(cname, {}).setdefault(k, v)
             todo.extend(bases[b])
+    _module_constants(tree)
     ctx = _Ctx(modname, funcs, classes)
     for n in tree.body:
         if isinstance(n, ast.FunctionDef):
+            ctx.caller_names = _locals_of(n) | {x.id for x in ast.walk(n) if isinstance(x, ast.Name)}
             n.body = _block(n.body, ctx, None, None)
             _views(n)
         elif isinstance(n, ast.ClassDef):
             for m in n.body:
                 if isinstance(m, ast.FunctionDef):
                     selfname = m.args.args[0].arg if (m.args.args and not any(ast.unparse(d) == "staticmethod" for d in m.decorator_list)) else None
+                    ctx.caller_names = _locals_of(m) | {x.id for x in ast.walk(m) if isinstance(x, ast.Name)}
                     m.body = _block(m.body, ctx, n.name, selfname)
                     _views(m)
     return ast.fix_missing_locations(tree)
